@@ -39,6 +39,10 @@
 #include "celeritas/em/model/RelativisticBremModel.hh"
 #include "celeritas/em/model/SeltzerBergerModel.hh"
 #include "celeritas/em/params/AtomicRelaxationParams.hh"
+#include "celeritas/em/detail/Utils.hh"
+#include "celeritas/em/interactor/AtomicRelaxation.hh"
+#include "corecel/data/CollectionBuilder.hh"
+#include <map>
 #include "celeritas/em/params/WentzelOKVIParams.hh"
 #include "celeritas/io/AtomicRelaxationReader.hh"
 #include "celeritas/io/LivermorePEReader.hh"
@@ -63,7 +67,11 @@ class Fixture : public celeritas::test::InteractorHostTestBase
   public:
     Fixture();
     void TestBody() override {}
-    void set_cutoffs(double electron_cut, double gamma_cut);
+    void set_cutoffs(double electron_cut, double gamma_cut, double positron_cut);
+    void set_cutoffs(double electron_cut, double gamma_cut)
+    {
+        this->set_cutoffs(electron_cut, gamma_cut, electron_cut);
+    }
 
     celeritas::ParticleId electron, positron, gamma, mu_minus, mu_plus;
     celeritas::units::MevMass emass;
@@ -83,6 +91,7 @@ struct AllocBox
 
     AllocBox(std::size_t cap, std::size_t size);
     bool untouched() const;
+    bool tail_untouched() const;
     std::size_t reported_size() const;
 };
 
@@ -199,19 +208,22 @@ Fixture::Fixture()
     this->set_material("Cu");
 }
 
-void Fixture::set_cutoffs(double electron_cut, double gamma_cut)
+void Fixture::set_cutoffs(double electron_cut, double gamma_cut, double positron_cut)
 {
     CutoffParams::Input input;
     input.materials = this->material_params();
     input.particles = this->particle_params();
     CutoffParams::MaterialCutoffs ec(this->material_params()->size());
     CutoffParams::MaterialCutoffs gc(this->material_params()->size());
+    CutoffParams::MaterialCutoffs pc(this->material_params()->size());
     for (auto& c : ec)
         c = {MevEnergy{electron_cut}, 0.1};
     for (auto& c : gc)
         c = {MevEnergy{gamma_cut}, 0.1};
+    for (auto& c : pc)
+        c = {MevEnergy{positron_cut}, 0.1};
     input.cutoffs.insert({pdg::electron(), ec});
-    input.cutoffs.insert({pdg::positron(), ec});
+    input.cutoffs.insert({pdg::positron(), pc});
     input.cutoffs.insert({pdg::gamma(), gc});
     this->set_cutoff_params(input);
 }
@@ -243,6 +255,17 @@ bool AllocBox::untouched() const
     auto all = store.ref().storage[AllItems<Secondary>{}];
     return std::memcmp(all.data(), snapshot.data(), snapshot.size()) == 0
            && alloc->get().size() == size0;
+}
+
+//! nothing was written past the slots the allocator handed out
+bool AllocBox::tail_untouched() const
+{
+    auto all = store.ref().storage[AllItems<Secondary>{}];
+    std::size_t off = alloc->get().size() * sizeof(Secondary);
+    return std::memcmp(reinterpret_cast<unsigned char const*>(all.data()) + off,
+                       snapshot.data() + off,
+                       snapshot.size() - off)
+           == 0;
 }
 
 std::size_t AllocBox::reported_size() const
@@ -305,7 +328,6 @@ struct FxK : Fixture
     HostRef<AtomicRelaxStateData> relax_states_ref;
     HostCRef<AtomicRelaxParamsData> no_relax_params_ref;
     HostRef<AtomicRelaxStateData> no_relax_states_ref;
-    double relax_cut{-1};
 
     FxK()
     {
@@ -322,25 +344,43 @@ struct FxK : Fixture
                                                    *this->material_params(), read_element_data);
         this->set_material("K");
     }
-    void set_relax(double cut)
+    void set_relax(double ecut, double gcut, bool auger)
     {
-        if (cut == relax_cut)
+        if (ecut == relax_ecut && gcut == relax_gcut && auger == relax_auger && relax_params)
             return;
-        relax_cut = cut;
-        this->set_cutoffs(cut, cut);
-        std::string data_path = this->test_data_path("celeritas", "");
-        AtomicRelaxationReader read_transition_data(data_path.c_str(), data_path.c_str());
+        relax_ecut = ecut;
+        relax_gcut = gcut;
+        relax_auger = auger;
+        this->set_cutoffs(ecut, gcut, ecut);
+        if (!reader)
+        {
+            std::string data_path = this->test_data_path("celeritas", "");
+            reader = std::make_shared<AtomicRelaxationReader>(data_path.c_str(),
+                                                              data_path.c_str());
+        }
+        auto rd = reader;
+        auto cache = imported;
         relax_inp.cutoffs = this->cutoff_params();
         relax_inp.materials = this->material_params();
         relax_inp.particles = this->particle_params();
-        relax_inp.load_data = read_transition_data;
-        relax_inp.is_auger_enabled = true;
+        relax_inp.load_data = [rd, cache](AtomicNumber z) {
+            auto it = cache->find(z.unchecked_get());
+            if (it == cache->end())
+                it = cache->insert({z.unchecked_get(), (*rd)(z)}).first;
+            return it->second;
+        };
+        relax_inp.is_auger_enabled = auger;
         relax_params = std::make_shared<AtomicRelaxationParams>(relax_inp);
         relax_params_ref = relax_params->host_ref();
         relax_states = {};
         resize(&relax_states, relax_params_ref, 1);
         relax_states_ref = relax_states;
     }
+    std::shared_ptr<AtomicRelaxationReader> reader;
+    std::shared_ptr<std::map<int, ImportAtomicRelaxation>> imported
+        = std::make_shared<std::map<int, ImportAtomicRelaxation>>();
+    double relax_ecut{-1}, relax_gcut{-1};
+    bool relax_auger{false};
 };
 
 struct FxRay : Fixture
@@ -448,6 +488,8 @@ string run_scripted(std::size_t cap, std::size_t size, vecd const& script, F&& c
             return "failed-but-wrote";
         if (r.action == Interaction::Action::failed && rng.draws() != 0)
             return "failed-after-draws";
+        if (!box.tail_untouched())
+            return "wrote-past-allocation";
         return show_interaction(r, box.reported_size(), rng.draws());
     }
     catch (vh::ScriptExhausted const&)
@@ -477,7 +519,9 @@ std::string Oracle::dispatch(std::string const& model, std::size_t cap, std::siz
         return "bad-op";
     double const E = d[0];
     Real3 const dir{d[1], d[2], d[3]};
-    double const cut = d[4];
+    double const cut_e = d[4];
+    double const cut_g = d[5];
+    double const cut_p = d[6];
     AllocBox box(cap, size);
     auto& alloc = *box.alloc;
     Interaction r;
@@ -510,7 +554,7 @@ std::string Oracle::dispatch(std::string const& model, std::size_t cap, std::siz
         data.ids.positron = fx_.positron;
         data.electron_mass = fx_.emass;
         fx_.set_inc_particle(model == "mb-" ? pdg::electron() : pdg::positron(), MevEnergy{E});
-        fx_.set_cutoffs(cut, cut);
+        fx_.set_cutoffs(cut_e, cut_g, cut_p);
         r = MollerBhabhaInteractor(
             data, fx_.particle_track(), fx_.cutoff_params()->get(MaterialId{0}), dir, alloc)(rng);
     }
@@ -524,7 +568,7 @@ std::string Oracle::dispatch(std::string const& model, std::size_t cap, std::siz
                       : model == "icru" ? pdg::mu_minus()
                                         : pdg_of(model, "-", pdg::mu_minus(), pdg::mu_plus());
         fx_.set_inc_particle(p, MevEnergy{E});
-        fx_.set_cutoffs(cut, cut);
+        fx_.set_cutoffs(cut_e, cut_g, cut_p);
         auto cv = fx_.cutoff_params()->get(MaterialId{0});
         if (model[0] == 'b' && model[1] == 'b')
             r = MuHadIonizationInteractor<BetheBlochEnergyDistribution>(
@@ -559,7 +603,7 @@ std::string Oracle::dispatch(std::string const& model, std::size_t cap, std::siz
         data.mu_plus = fx_.mu_plus;
         data.electron_mass = fx_.emass;
         fx_.set_inc_particle(model == "mubrems-" ? pdg::mu_minus() : pdg::mu_plus(), MevEnergy{E});
-        fx_.set_cutoffs(cut, cut);
+        fx_.set_cutoffs(cut_e, cut_g, cut_p);
         auto const material = fx_.material_track().make_material_view();
         r = MuBremsstrahlungInteractor(data, fx_.particle_track(), dir,
                                        fx_.cutoff_params()->get(MaterialId{0}), alloc, material,
@@ -572,7 +616,7 @@ std::string Oracle::dispatch(std::string const& model, std::size_t cap, std::siz
             cu_ = std::make_unique<FxCu>();
         auto& f = *cu_;
         f.set_inc_particle(model.back() == '-' ? pdg::electron() : pdg::positron(), MevEnergy{E});
-        f.set_cutoffs(cut, cut);
+        f.set_cutoffs(cut_e, cut_g, cut_p);
         auto const material = f.material_track().make_material_view();
         auto cv = f.cutoff_params()->get(MaterialId{0});
         if (model[0] == 's')
@@ -586,16 +630,16 @@ std::string Oracle::dispatch(std::string const& model, std::size_t cap, std::siz
                 (model[2] == 'l' ? f.rb_lpm : f.rb)->host_ref(), f.particle_track(), dir, cv,
                 alloc, material, ElementComponentId{0})(rng);
     }
-    else if (model == "pe" || model == "perelax")
+    else if (model == "pe" || model == "perelax" || model == "perelaxf")
     {
         if (!k_)
             k_ = std::make_unique<FxK>();
         auto& f = *k_;
         f.set_inc_particle(pdg::gamma(), MevEnergy{E});
         ElementId el_id{0};
-        if (model == "perelax")
+        if (model != "pe")
         {
-            f.set_relax(cut);
+            f.set_relax(cut_e, cut_g, model == "perelax");
             AtomicRelaxationHelper relaxation(
                 f.relax_params_ref, f.relax_states_ref, el_id, TrackSlotId{0});
             r = LivermorePEInteractor(f.model->host_ref(), relaxation, el_id, f.particle_track(),
@@ -603,6 +647,7 @@ std::string Oracle::dispatch(std::string const& model, std::size_t cap, std::siz
         }
         else
         {
+            f.set_cutoffs(cut_e, cut_g, cut_p);
             AtomicRelaxationHelper relaxation(
                 f.no_relax_params_ref, f.no_relax_states_ref, el_id, TrackSlotId{0});
             r = LivermorePEInteractor(f.model->host_ref(), relaxation, el_id, f.particle_track(),
@@ -627,7 +672,7 @@ std::string Oracle::dispatch(std::string const& model, std::size_t cap, std::siz
             coul_ = std::make_unique<FxCoul>();
         auto& f = *coul_;
         f.set_inc_particle(model[2] == '-' ? pdg::electron() : pdg::positron(), MevEnergy{E});
-        f.set_cutoffs(cut, cut);
+        f.set_cutoffs(cut_e, cut_g, cut_p);
         auto const material = f.material_track().make_material_view();
         IsotopeView const isotope
             = material.make_element_view(ElementComponentId{0})
@@ -648,27 +693,29 @@ std::string Oracle::dispatch(std::string const& model, std::size_t cap, std::siz
         return "failed-but-wrote";
     if (r.action == Interaction::Action::failed && rng.draws() != 0)
         return "failed-after-draws";
+    if (!box.tail_untouched())
+        return "wrote-past-allocation";
     return show_interaction(r, box.reported_size(), rng.draws());
 }
 
 std::string Oracle::run(std::vector<std::string> const& w)
 {
-    // x model cap size E dx dy dz cut | s seed   /   | u script…
-    if (w.size() < 12 || w[9] != "|" || w[0] != "x")
+    // x model cap size E dx dy dz cut_e cut_g cut_p | s seed   /   | u script…
+    if (w.size() < 14 || w[11] != "|" || w[0] != "x")
         return "bad-op";
     std::size_t cap = 0, size = 0;
     vecd d, script;
-    if (!parse_nat(w[2], &cap) || !parse_nat(w[3], &size) || !parse_all(w, 4, 9, &d))
+    if (!parse_nat(w[2], &cap) || !parse_nat(w[3], &size) || !parse_all(w, 4, 11, &d))
         return "bad-op";
     for (double v : d)
         if (!std::isfinite(v))
             return "bad-op";
     try
     {
-        if (w[10] == "s" && w.size() == 12)
+        if (w[12] == "s" && w.size() == 14)
         {
             std::uint64_t seed;
-            if (!vh::parse_hex(w[11], &seed) || seed >= (1ull << 32))
+            if (!vh::parse_hex(w[13], &seed) || seed >= (1ull << 32))
                 return "bad-op";
             XorwowRngEngine eng(rng_params_->host_ref(), rng_states_->ref(), TrackSlotId{0});
             XorwowRngInitializer init;
@@ -679,7 +726,7 @@ std::string Oracle::run(std::vector<std::string> const& w)
             CountingXorwow rng{&eng, 0};
             return this->dispatch(w[1], cap, size, d, rng);
         }
-        if (w[10] == "u" && parse_all(w, 11, w.size(), &script))
+        if (w[12] == "u" && parse_all(w, 13, w.size(), &script))
         {
             ScriptedEngine rng{script};
             return this->dispatch(w[1], cap, size, d, rng);
@@ -697,6 +744,100 @@ std::string Oracle::run(std::vector<std::string> const& w)
 }
 //---------------------------------------------------------------------------//
 }  // namespace vh
+
+namespace
+{
+//---------------------------------------------------------------------------//
+/*!
+ * The REAL AtomicRelaxation on a transition table given on the op line:
+ * `relax <shell> <nshells> <ecut> <gcut> {t <shell> <initial> <auger|-> <prob> <energy>}* | script`.
+ * `with_max`: also print calc_max_secondaries() and whether anything was written past it.
+ */
+string run_relax(vh::Fixture& fx, std::vector<string> const& w, bool with_max)
+{
+    std::size_t bar = 1;
+    while (bar < w.size() && w[bar] != "|")
+        ++bar;
+    if (bar >= w.size() || bar < 5 || (bar - 5) % 6 != 0)
+        return "bad-op";
+    std::size_t sh0 = 0, n = 0;
+    vecd cuts, script;
+    if (!parse_nat(w[1], &sh0) || !parse_nat(w[2], &n) || !parse_all(w, 3, 5, &cuts)
+        || !parse_all(w, bar + 1, w.size(), &script))
+        return "bad-op";
+    if (n == 0 || n > 64 || sh0 >= n)
+        return "bad-op";
+    std::vector<std::vector<AtomicRelaxTransition>> table(n);
+    for (std::size_t i = 5; i < bar; i += 6)
+    {
+        std::size_t sh = 0, ini = 0, au = 0;
+        vecd pe;
+        if (w[i] != "t" || !parse_nat(w[i + 1], &sh) || !parse_nat(w[i + 2], &ini)
+            || !parse_all(w, i + 4, i + 6, &pe))
+            return "bad-op";
+        bool has_auger = w[i + 3] != "-";
+        if (has_auger && !parse_nat(w[i + 3], &au))
+            return "bad-op";
+        if (sh >= n || ini <= sh || (has_auger && au <= sh))
+            return "bad-op";
+        AtomicRelaxTransition t;
+        t.initial_shell = SubshellId{static_cast<size_type>(ini)};
+        t.auger_shell = has_auger ? SubshellId{static_cast<size_type>(au)} : SubshellId{};
+        t.probability = pe[0];
+        t.energy = MevEnergy{pe[1]};
+        table[sh].push_back(t);
+    }
+    HostVal<AtomicRelaxParamsData> data;
+    data.ids.electron = fx.electron;
+    data.ids.gamma = fx.gamma;
+    std::vector<AtomicRelaxSubshell> shells(n);
+    for (std::size_t i = 0; i < n; ++i)
+    {
+        shells[i].transitions
+            = make_builder(&data.transitions).insert_back(table[i].begin(), table[i].end());
+    }
+    AtomicRelaxElement el;
+    el.shells = make_builder(&data.shells).insert_back(shells.begin(), shells.end());
+    el.max_secondary = celeritas::detail::calc_max_secondaries(
+        make_const_ref(data), el.shells, MevEnergy{cuts[0]}, MevEnergy{cuts[1]});
+    data.max_stack_size = 2 * n + 8;
+    make_builder(&data.elements).push_back(el);
+    HostCRef<AtomicRelaxParamsData> ref;
+    ref = data;
+
+    fx.set_cutoffs(cuts[0], cuts[1], cuts[0]);
+    // secondaries: the span the caller would allocate is max_secondary long; the backing store
+    // is larger and pre-filled so that writes past the span are visible, not fatal
+    std::size_t const backing = 3 * script.size() + 8;
+    std::vector<Secondary> secs(backing);
+    std::memset(static_cast<void*>(secs.data()), 0xAB, backing * sizeof(Secondary));
+    std::vector<SubshellId> vac(data.max_stack_size);
+    vh::ScriptedEngine rng{script};
+    try
+    {
+        AtomicRelaxation relax(ref,
+                               fx.cutoff_params()->get(MaterialId{0}),
+                               ElementId{0},
+                               SubshellId{static_cast<size_type>(sh0)},
+                               Span<Secondary>{secs.data(), backing},
+                               Span<SubshellId>{vac.data(), vac.size()});
+        auto res = relax(rng);
+        if (res.count > backing)
+            return "relax-overflow";
+        string out = with_max ? "xrelaxed " + std::to_string(el.max_secondary) + " " : "relaxed ";
+        out += std::to_string(res.count) + " " + vh::hexd(res.energy.value());
+        for (std::size_t i = 0; i < res.count; ++i)
+            out += " " + show_secondary(secs[i]);
+        out += " " + std::to_string(rng.draws());
+        return out;
+    }
+    catch (vh::ScriptExhausted const&)
+    {
+        return "script-exhausted";
+    }
+}
+//---------------------------------------------------------------------------//
+}  // namespace
 
 int main(int argc, char** argv)
 {
@@ -872,6 +1013,10 @@ int main(int argc, char** argv)
         {
             Real3 a{d[1], d[2], d[3]}, b{d[5], d[6], d[7]};
             std::cout << hv(calc_exiting_direction({d[0], a}, {d[4], b})) << "\n";
+        }
+        else if (op == "relax" || op == "xrelax")
+        {
+            std::cout << run_relax(fx, w, op == "xrelax") << "\n";
         }
         else if (op == "x")
         {
